@@ -22,6 +22,23 @@ CLAIMED = {
    "reference model (independent Zinc reader/writer written from the grammar) + exhaustive deviation-bounded exploration of the writer's choice points (E2); every model trace executed on the implementation",
    "Direction 1: every value of Σ ∪ U encoded by libhaystack is parsed by the strict reference reader and must denote the value. Direction 2: every spelling the reference writer produces with <= 2 deviations (scalars; unbounded where the spelling space is <= 10^4), <= 1 (container universe) and <= 2 (core containers) over 16 choice-point types is decoded by libhaystack and must give the value. The reference writer->reader identity is checked on every explored spelling.",
    "The grammar in DESIGN Appendix A.1 is written from memory of the Project Haystack documentation (no network); uncertain constructs are accepted by the reference reader and never written, so they can only cost coverage."),
+ "C05": ("model_checking", "DESIGN.md §5 C05, Appendix A.2",
+   "reference model (independent Hayson mapping + own JSON emitter) + exhaustive deviation-bounded exploration of the emitter's choice points (E2); every model document decoded by the implementation",
+   "Direction 1: serde_json::to_value/to_string of every value of Σ ∪ U is checked member by member to be the Hayson representation (right _kind, exact member names, plain JSON where prescribed). Direction 2: every document with <= 2 deviations (scalars; unbounded for spelling spaces <= 5000), <= 1 (container universe), <= 2 (core) over 10 choice-point types — member order of every object (all permutations up to 4 members), _kind:dict, grid/column meta spellings, tz for UTC, number spellings, string escapes incl. surrogate pairs, white space — is decoded by libhaystack to the value.",
+   "Appendix A.2 is written from memory of the Project Haystack JSON documentation. serde_json is trusted as the JSON reader for the reference writer's self-check."),
+ "C07": ("model_checking", "DESIGN.md §5 C07, Appendix A.3",
+   "exhaustive enumeration of all filter programs up to 3 leaves (built from the public node structs) x a record universe, real evaluator vs reference evaluator in lock-step",
+   "Every single leaf (has/missing over 8 paths; 6 operators x 13 literals x 4 paths) on 144 records covering every kind incl. Null, lists and nested dicts; every and/or/parens shape with <= 3 leaves over a kind-distinct core; `*==` through EvalContext with a caller-supplied resolver over 48 ref worlds (chains, 1- and 2-cycles, dangling refs); Grid::filter / filter_all over every grid of <= 3 rows x 6 filters. Reference evaluator written from the statement; ordering of Numbers with different units is unconstrained and skipped.",
+   "Value equality of the filter language = same kind and value, Ref by id, DateTime by instant. `^symbol` semantics are decided in C13."),
+ "C08": ("model_checking", "DESIGN.md §5 C08, Appendix A.3",
+   "exhaustive enumeration of filter trees up to 2/3 leaves; print->parse identity on the real printer/parser + deviation-bounded exploration (E2) of a reference printer's spacing choices",
+   "Every leaf over literals of every admissible kind, paths of 1-4 segments (incl. names starting with a keyword), not, ^symbol, *==, four relationship forms, and every and/or/parens shape with <= 2 (thorough 3) leaves: (1) Filter::to_string -> Filter::try_from gives an equal tree and reprints identically; (2) every spelling of the reference printer with <= 2/3 deviations of required and optional white space (space / none / newline / tab / double) parses to the same tree.",
+   "An equal filter compares Refs by id (display names are not compared). Literal syntax = Zinc scalar syntax."),
+ "C09": ("fault_enumeration", "DESIGN.md §5 C09",
+   "exhaustive enumeration of token sequences, byte strings, mutated printed filters and nesting depths; each parsed (and, if accepted, evaluated and re-printed) in isolated child processes with watchdog",
+   "All sequences of <= 4/5 tokens over 27 tokens (spaced and unspaced), all byte strings <= 2/3, every prefix/substitution/deletion/insertion of ~280 printed filters, 8 nesting patterns at depths 1..256, 2^k up to 131072 and 10^5 on 8 MiB and 2 MiB stacks. Accepted filters are evaluated on 16 records with a cyclic resolver over the namespace of tests/defs/defs.zinc (transitive relationships run), printed and re-parsed.",
+   "6 s watchdog decides non-termination; after 3 crashes in a job remaining chunks are skipped (verdict already decided)."),
+
  "C06": ("exploration", "DESIGN.md §5 C06",
    "exhaustive enumeration of RFC 3339 offsets x instants x fraction digits, and of all in-model zones x every offset transition neighbourhood, against an independent calendar calculator",
    "(i) 105 offsets x 10 instants x 0-9 fraction digits through three constructors: rejected or exactly the instant computed by the harness's own days-from-civil arithmetic; (ii) every in-model zone (590 of 594) x every offset transition 1980-2060 x {t-3601,t-1,t,t+1,t+3599} + lattice through parse_from_rfc3339_with_timezone (UTC and local spelling); (iii) the same timestamps through Zinc and Hayson with 0/3/6/9 fraction digits: same instant, local offset and zone name.",
